@@ -78,8 +78,13 @@ def wchar_bytes(I, w):
         bs = [simp(z3.Concat(z3.BitVecVal(0b1110, 4), z3.Extract(15, 12, cp))),
               simp(z3.Concat(z3.BitVecVal(0b10, 2), z3.Extract(11, 6, cp))),
               simp(z3.Concat(z3.BitVecVal(0b10, 2), z3.Extract(5, 0, cp)))]
+    elif w.n == 4:
+        bs = [simp(z3.Concat(z3.BitVecVal(0b11110, 5), z3.Extract(20, 18, cp))),
+              simp(z3.Concat(z3.BitVecVal(0b10, 2), z3.Extract(17, 12, cp))),
+              simp(z3.Concat(z3.BitVecVal(0b10, 2), z3.Extract(11, 6, cp))),
+              simp(z3.Concat(z3.BitVecVal(0b10, 2), z3.Extract(5, 0, cp)))]
     else:
-        raise Unsupported('4-byte scalar')
+        raise Unsupported('%d-byte scalar' % w.n)
     cache[k] = (w, bs)
     return bs
 
@@ -566,7 +571,7 @@ def m_from_utf8(I, c, args, fr):
             elif n == 3:
                 cp = z3.ZeroExt(16, z3.Concat(z3.Extract(3, 0, bs[0]), z3.Extract(5, 0, bs[1]), z3.Extract(5, 0, bs[2])))
             else:
-                raise Unsupported('4-byte scalar from symbolic bytes')
+                cp = z3.ZeroExt(11, z3.Concat(z3.Extract(2, 0, bs[0]), z3.Extract(5, 0, bs[1]), z3.Extract(5, 0, bs[2]), z3.Extract(5, 0, bs[3])))
             w = WChar(simp(cp), n)
             if not hasattr(I, '_wchars'):
                 I._wchars = {}
@@ -1207,9 +1212,13 @@ def hash_value(I, v, h):
     v = deref(v)
     hv = deref(h)
     if isinstance(v, (SliceRef, StrBuf)) and (isinstance(v, StrBuf) or v.kind == 'str') or (isinstance(v, Adt) and v.ty == 'Cow'):
-        feed(I, hv, ('str', list(as_items(v))))
+        # str::hash = Hasher::write_str = write(bytes) + write_u8(0xff)
+        feed(I, hv, ('bytes', list(as_items(v))))
+        feed(I, hv, ('int', 0xff))
         return
     if isinstance(v, (SliceRef, ByteBuf)):
+        # [T]::hash = write_length_prefix(len) + the elements
+        feed(I, hv, ('len', len(as_items(v))))
         feed(I, hv, ('bytes', list(as_items(v))))
         return
     if isinstance(v, (int, bool)) or is_sym(v):
@@ -1993,3 +2002,26 @@ def m_range_contains(I, c, args, fr):
     if hi is not None:
         conds.append(cmp(x, 'Le' if incl else 'Lt', hi))
     return b_and(*conds)
+
+
+@model('Hasher::write')
+def m_hasher_write(I, c, args, fr):
+    feed(I, deref(args[0]), ('bytes', list(explode(I, as_items(args[1])))))
+    return UNIT
+
+@model('Hasher::write_str')
+def m_hasher_write_str(I, c, args, fr):
+    feed(I, deref(args[0]), ('bytes', list(as_items(args[1]))))
+    feed(I, deref(args[0]), ('int', 0xff))
+    return UNIT
+
+@model('Hasher::write_u8', 'Hasher::write_u16', 'Hasher::write_u32', 'Hasher::write_u64', 'Hasher::write_usize', 'Hasher::write_i8', 'Hasher::write_i32',
+       'Hasher::write_i64', 'Hasher::write_isize', 'Hasher::write_u128')
+def m_hasher_write_int(I, c, args, fr):
+    feed(I, deref(args[0]), ('int', args[1]))
+    return UNIT
+
+@model('Hasher::write_length_prefix')
+def m_hasher_write_len(I, c, args, fr):
+    feed(I, deref(args[0]), ('len', args[1]))
+    return UNIT
